@@ -50,7 +50,8 @@ def run(chk):
     if not safe:
         chk.assumptions.append('spif_str_trim() of an empty string is unsafe in this tree (str.c, property C01): tok is NOT driven on inputs whose token list '
                                'contains an empty token (%d inputs skipped); split is still checked on them' % r.counts.get('tok_skipped_empty_token', 0))
-        chk.cov['tok_empty_token_probe'] = 'unsafe: ' + why.strip().splitlines()[0][:200] if why.strip() else 'unsafe'
+        err = [l for l in why.splitlines() if 'ERROR:' in l or 'runtime error' in l]
+        chk.cov['tok_empty_token_probe'] = 'unsafe: ' + (err[0].strip()[:200] if err else 'probe did not finish')
     else:
         chk.cov['tok_empty_token_probe'] = 'safe'
         chk.require('tok_empty_token_inputs', 1000)
@@ -72,4 +73,6 @@ def run(chk):
     chk.require('word_inputs_backslash_quote', 1000)
     chk.require('word_inputs_rule_sensitive', 500)
     chk.require('word_inputs_ending_in_backslash', 1000)
+    if not chk.quick():
+        chk.require('many_tokens_cases', 1)      # 66000 tokens: more than a 16-bit counter holds (split only)
     chk.min_cases = E
